@@ -1438,6 +1438,11 @@ func toMethod(v Value) func(FunctionCall) Value {
 			return call
 		}
 	}
+	if obj, ok := v.(*Object); ok {
+		// do not convert the object to a string here: that may need the very method that is being looked up
+		// (o[Symbol.toPrimitive] = o would recurse until the Go stack is exhausted)
+		panic(newTypeError("[object %s] is not a method", obj.self.className()))
+	}
 	panic(newTypeError("%s is not a method", v.String()))
 }
 
